@@ -167,6 +167,17 @@ CLAIMED['C08'] = dict(
     technique='TLA+ integer loop / selection model + TLC enumeration; spec->code replay',
     design_ref='3/C08')
 
+CLAIMED['C19'] = dict(
+    text=('Partition.tla: boxed variables as (prime-sized shape, names); AddAxis / RemoveAxis transcribed (padding rule) and composed for '
+          'scan-in-vmap / vmap-in-scan at every axis position; TLC checks alignment (one name per dimension, the inserted name where the '
+          'stacked dimension is) and add/remove inverse; logical_to_mesh_axes transcribed with TLC checking no mesh axis twice and rule '
+          'priority over all name tuples x rule lists. Cases are run with real nn.scan / nn.vmap nests (metadata_params, also '
+          'partition_name=None and negative axes) on nn.with_partitioning params and nnx.vmap / nnx.scan (transform_metadata) on '
+          'sharding-annotated Params (also rank 0); names vs value shapes, names seen inside the body, get_partition_spec and '
+          'logical_to_mesh_axes results are compared.'),
+    technique='TLA+ axis-bookkeeping model + TLC enumeration; spec->code replay of every case',
+    design_ref='3/C19')
+
 NOT_YET = 'check not built yet in this round (planned, see DESIGN.md section 3); not claimed until its specification is bound to the code'
 ALL = ['C%02d' % i for i in range(1, 21)]
 
